@@ -357,7 +357,7 @@ _PROJ_T = [
     dict(vars=[("x", 3), ("y", 3)], elim=0),
     dict(vars=[("x", 2), ("y", 2), ("z", 2)], elim=2),
     dict(vars=[("x", 2), ("y", 2)], elim=0, kinds=("fin", "+inf", "-inf"), opkinds=["matrix"]),
-    dict(vars=[("x", 2), ("y", 2), ("z", 2), ("w", 2)], elim=0, opkinds=["matrix"]),
+    dict(vars=[("x", 2), ("y", 3), ("z", 2)], elim=1, opkinds=["matrix"]),
 ]
 
 Contract(
